@@ -10,7 +10,7 @@ from typing import Any
 
 import torch
 
-from .. import adapter, gen, spec, world, worldrun
+from .. import adapter, gen, shardworld, spec, world, worldrun
 from ..engine import Violation, config_features
 from ..runner import Outcome
 from . import common
@@ -23,7 +23,7 @@ TECHNIQUE = (
     "deterministic crash/restart simulation: for each sampled history, a crash at every step boundary with only the "
     "durable state (distributed state dict + parameters) surviving, fresh optimizer, restore, continue and compare bit-for-bit "
     "with the uninterrupted run; storage faults on the saved dict (lost leaf, lost subtree, unknown parameter, group mismatch); "
-    "serial layout and DDP layout inside the multi-rank world"
+    "serial layout and, inside the multi-rank world, DDP, FSDP, HSDP, fully_shard and hybrid-shard layouts"
 )
 LEVEL_TEXT = (
     "Crash points are enumerated exhaustively per sampled history in the thorough tier (quick: the structurally interesting "
@@ -38,7 +38,7 @@ LEVEL_NOTE = (
 BUDGET = {"quick": 55.0, "thorough": 600.0}
 RULE = (
     "seeded (configuration: Shampoo/SOAP, grafting types, momentum, filtering, 1-3 groups, blocked parameters, blocks without "
-    "Kronecker factor x history of <= 16 (thorough 30) events with absent gradients and scheduler writes x layout serial|ddp); "
+    "Kronecker factor x history of <= 16 (thorough 30) events with absent gradients and scheduler writes x layout serial|ddp|fsdp|hsdp|fully_shard|hybrid_shard); "
     "evaluations = histories; each history contributes its crash points (counted in probes.crash_points). Non-trivial = at "
     "least one crash point with >= 1 remaining step compared; distinct = distinct (config features, layout, crash-point phase set)"
 )
@@ -47,16 +47,18 @@ ASSUMPTIONS = [
     "the checkpoint is the distributed state dict plus the parameter values (parameters are checkpointed by the caller)",
     "the fresh optimizer is constructed with the original constructor arguments; scheduler-written lr/decay/momentum must come back from param_groups",
     "any exception type from load_distributed_state_dict counts as 'raises'",
-    "DDP layout: every rank saves and restores its own local state (DTensor local data re-wrapped onto the fresh optimizer's meshes)",
+    "distributed layouts: every rank saves and restores its own local state (DTensor local data re-wrapped onto the fresh optimizer's meshes); "
+    "the restarted world has the same size, mesh and sharding as the saved one (no re-sharding)",
+    "sharded layouts use histories in which every block owner has a gradient among its blocks (finding F3 is C06-C08's)",
 ]
 COMPONENTS = {
     "real": [
         "DistributedShampoo.distributed_state_dict / load_distributed_state_dict",
         "shampoo_checkpoint_utils (flatten, unflatten, extract, update)",
         "OptimizerModule.state_dict / load_state_dict",
-        "preconditioner lists and (DDP layout) DDPDistributor + DTensor state",
+        "preconditioner lists and (distributed layouts) DDP / FSDP / HSDP / FullyShard / HybridShard distributors + DTensor state",
     ],
-    "stub": ["checkpoint storage: in-memory disk holding deep clones (optionally torch.save bytes)", "model/autograd", "DDP layout: simulated world"],
+    "stub": ["checkpoint storage: in-memory disk holding deep clones (optionally torch.save bytes)", "model/autograd", "distributed layouts: simulated world (c10d backend, scheduler)"],
 }
 REQUIRED_PROBES = {
     "quick": ["crash_points", "resume_steps_compared", "ckpt_fault_injected", "restore_at_refresh_step"],
@@ -71,6 +73,10 @@ REQUIRED_PROBES = {
         "hparam_restored_from_param_groups",
         "block_without_tensor_leaf_run",
         "ddp_layout_run",
+        "fsdp_layout_run",
+        "hsdp_layout_run",
+        "fully_shard_layout_run",
+        "hybrid_shard_layout_run",
         "soap_run",
         "frozen_param_run",
         "ckpt_regrouped",
@@ -99,6 +105,10 @@ def clone_state_dict(sd: dict, roundtrip: bool) -> dict:
         buf.seek(0)
         out = torch.load(buf, weights_only=False)
     return out
+
+
+def local_params(params: list[torch.Tensor]) -> list[torch.Tensor]:
+    return [spec._local(p.detach()).clone() for p in params]
 
 
 def full_state_snapshot(opt, params: list[torch.Tensor]) -> dict:
@@ -168,6 +178,38 @@ class System:
 
     def load(self, sd: dict) -> None:
         self.opt.load_distributed_state_dict(state_dict=sd, key_to_param=iter(zip(self.nm, self.params)))
+
+
+class ShardSystem(System):
+    """One optimizer instance of one rank of a sharded world (FSDP / HSDP / fully_shard / hybrid shard): the rank's local
+    shards are built by the same rank programs the C07/C08 worlds run."""
+
+    def __init__(self, trace: dict, init: list[torch.Tensor] | None, rank: int, sim) -> None:
+        self.trace = trace
+        self.prog = shardworld.PROGRAMS[trace["world"]["kind"]](trace, rank, sim)
+        self.prog.setup()
+        self.params, self.opt = self.prog.params, self.prog.opt
+        self.frozen = set()
+        if init is not None:
+            # the restarted process holds the checkpointed model: blocks are views of the parameters, so writing the local
+            # shards in place is what loading the model's own state dict does
+            with torch.no_grad():
+                for p, q in zip(self.params, init):
+                    spec._local(p).copy_(q)
+        self.nm = names(len(self.params))
+
+    def apply(self, ev: dict) -> BaseException | None:
+        if ev["op"] == "set_hparam":
+            self.opt.param_groups[ev["group"]][ev["key"]] = ev["value"]
+            return None
+        self.prog.set_grads(ev)
+        try:
+            self.opt.step()
+        except world.SimAbort:
+            raise
+        except Exception as e:  # noqa: BLE001
+            return e
+        return None
 
 
 def phases_of(trace: dict) -> list[str]:
@@ -281,7 +323,6 @@ def campaign(trace: dict, make_system, probes: Counter, yield_fn=None) -> Violat
 
     # uninterrupted run, saving at every crash point
     A = make_system(None)
-    init = [p.detach().clone() for p in A.params]
     disk: dict[int, tuple[dict, list[torch.Tensor]]] = {}
     record: dict[int, tuple[list[torch.Tensor], dict]] = {}
     leafless = False
@@ -317,7 +358,7 @@ def campaign(trace: dict, make_system, probes: Counter, yield_fn=None) -> Violat
                 for key in A.opt.state[p]:
                     if key != "step" and not any(True for _ in spec.walk_state(A.opt.state[p][key])):
                         leafless = True
-            disk[k] = (clone_state_dict(sd, roundtrip), [p.detach().clone() for p in A.params])
+            disk[k] = (clone_state_dict(sd, roundtrip), local_params(A.params))
         if k < T:
             exc = A.apply(trace["events"][k])
             if yield_fn:
@@ -327,7 +368,7 @@ def campaign(trace: dict, make_system, probes: Counter, yield_fn=None) -> Violat
                 T = k
                 pts = [x for x in pts if x <= k]
                 break
-            record[k] = ([p.detach().clone() for p in A.params], full_state_snapshot(A.opt, A.params))
+            record[k] = (local_params(A.params), full_state_snapshot(A.opt, A.params))
     if leafless:
         probes["block_without_tensor_leaf_run"] += 1
     hparams_written = any(e["op"] == "set_hparam" for e in trace["events"])
@@ -423,7 +464,7 @@ def campaign(trace: dict, make_system, probes: Counter, yield_fn=None) -> Violat
             if second is not None and j == second:
                 probes["double_restart"] += 1
                 sdj = clone_state_dict(B.save(), roundtrip)
-                pj = [p.detach().clone() for p in B.params]
+                pj = local_params(B.params)
                 B = make_system(pj)
                 try:
                     B.load(rewrap_for_load(sdj, B.opt, B.params, B.nm))
@@ -460,7 +501,29 @@ def campaign(trace: dict, make_system, probes: Counter, yield_fn=None) -> Violat
 # ---------------------------------------------------------------------------------------------------------------------
 
 
+def generate_sharded(rng: random.Random, tier: str) -> dict:
+    """A C07 / C08 world (flat FSDP / HSDP shards, dim-0 sharded DTensors) whose history never starves an owner, run as
+    a crash/restart campaign on every rank."""
+    from . import c07, c08
+
+    trace = (c07 if rng.random() < 0.5 else c08).generate(rng, "quick", allow_starve=False)
+    trace.pop("check_schedule_invariance", None)
+    trace.update(property=ID, engine="crash", layout=trace["world"]["kind"])
+    trace["world"]["stickiness"] = rng.choice([0.0, 0.5, 0.9])
+    trace["world"]["weights"] = [1.0] * trace["world"]["size"]
+    if rng.random() < 0.3 and len(trace["events"]) > 1:
+        at = rng.randrange(1, len(trace["events"]))
+        trace["events"].insert(at, {"op": "set_hparam", "group": rng.randrange(len(trace["groups"])), "key": "lr", "value": gen.f32r(rng, 1e-3, 0.5)})
+    trace["tier"] = tier
+    trace["campaign_seed"] = rng.randrange(1 << 30)
+    trace["ckpt_faults"] = rng.random() < 0.4
+    trace["torch_save_roundtrip"] = rng.random() < 0.2
+    return trace
+
+
 def generate(rng: random.Random, tier: str) -> dict:
+    if rng.random() < 0.15:
+        return generate_sharded(rng, tier)
     kind = rng.choice(["shampoo", "shampoo", "soap"])
     config = gen.gen_config(rng, kind=kind, simple_solver=True)
     if kind == "shampoo":
@@ -534,15 +597,24 @@ def execute(trace: dict) -> Outcome:
     common.quiet_logs()
     probes: Counter = Counter()
     sched = 0
-    if trace.get("layout") == "ddp":
-        probes["ddp_layout_run"] += 1
+    if trace.get("layout", "serial") != "serial":
+        probes[f"{trace['layout']}_layout_run"] += 1
         w = trace["world"]
         results: list[Violation | None] = [None] * w["size"]
         rank_probes = [Counter() for _ in range(w["size"])]
+        outs = [worldrun.RankOut() for _ in range(w["size"])]
 
         def rank_main(rank: int, sim: world.Sim) -> None:
             def mk(init, groups=None):
-                return System(trace, init, worldrun._dist_config(trace, rank, sim, []), groups)
+                if w["kind"] != "ddp":
+                    s_ = ShardSystem(trace, init, rank, sim)
+                    if init is None and w["kind"] in ("hsdp", "hybrid_shard"):
+                        outs[rank].groups_info = shardworld.collect_group_info_generic(s_.prog)
+                    return s_
+                s_ = System(trace, init, worldrun._dist_config(trace, rank, sim, []), groups)
+                if init is None:
+                    outs[rank].groups_info = worldrun.collect_group_info(s_.opt, trace, s_.params)
+                return s_
 
             results[rank] = campaign(trace, mk, rank_probes[rank], yield_fn=sim.yield_)
 
@@ -552,9 +624,16 @@ def execute(trace: dict) -> Outcome:
         sched = len(sim.choices)
         probes.update(rank_probes[0])
         v = next((r for r in results if r is not None), None)
-        if v is None and sim.outcome != "ok":
+        starving = [ei for ei, ev in enumerate(trace["events"]) if ev["op"] == "step" and worldrun.starved_ranks(trace, outs, ev)]
+        if starving:
+            # the history leaves a block owner without any gradient under the assignment the optimizer actually made: that is
+            # finding F3 (C06-C08) and outside this property's stated assumptions - no verdict for the run (the generator
+            # avoids such histories for the assignment rule of the pinned tree, so this stays at zero there)
+            probes["history_starves_under_actual_assignment"] += 1
+            v = None
+        elif v is None and sim.outcome != "ok":
             r = next((r for r in sim.ranks if r.exc is not None), None)
-            ctx = {"layout": "ddp", "outcome": sim.outcome}
+            ctx = {"layout": trace["layout"], "outcome": sim.outcome}
             if r is not None:
                 ctx.update(exc_type=type(r.exc).__name__, exc=str(r.exc)[:300], tb=r.exc_tb[-600:])
             if sim.outcome == "deadlock":
